@@ -1,7 +1,7 @@
 """C16 - concurrent conflicting appends are serialised (R16.1-R16.4)."""
 from ..facts import Program, Inconclusive, op_place
 from ..flow import Ev, walk, show, strip
-from ..util import calls, field_stores, try_continue_block
+from ..util import sites_via_helpers, private_wrappers, calls, field_stores, try_continue_block
 
 WTP = "sierradb::writer_thread_pool::"
 WS = WTP + "WriterSet::"
@@ -18,8 +18,8 @@ def check_sequence_cache(chk, prog, rule):
     an insert in handle_write after the last fallible append; nothing removes from it"""
     n = 0
     hw = prog.body(WS + "handle_write")
-    ac = calls(hw, BSW + "append_commit")
-    ae = calls(hw, BSW + "append_event")
+    ac = sites_via_helpers(prog, hw, BSW + "append_commit")
+    ae = sites_via_helpers(prog, hw, BSW + "append_event")
     for b in prog.bodies.values():
         if b.crate != "sierradb-lib":
             continue
@@ -127,5 +127,5 @@ def run(chk, facts_dir, tier):
     # R16.5
     from . import c02
     hw = prog.body(WS + "handle_write")
-    c02.late_bookkeeping(chk, prog, hw, Ev(prog, hw), calls(hw, BSW + "append_event"), calls(hw, BSW + "append_commit"), "R16.5")
+    c02.late_bookkeeping(chk, prog, hw, Ev(prog, hw), sites_via_helpers(prog, hw, BSW + "append_event"), sites_via_helpers(prog, hw, BSW + "append_commit"), "R16.5")
     return {}
